@@ -141,6 +141,15 @@ def gen_plan(rng):
                     'rnd': rng.below(1 << 30)})
 
     kbd = role == 'server' and rng.chance(35)
+    # client role: the dialogue goes through a public key query (PK_OK, then
+    # the signed request) or a keyboard-interactive round before the
+    # password, so that there are moments at which a request has been
+    # answered and the next one is not out yet
+    cdlg = rng.choice([None, 'pk', 'kbd']) if role == 'client' else None
+
+    if cdlg and rng.chance(70):
+        inj[0]['t'] = rng.choice([52, 52, 60, 60, 51])
+        inj[0]['shape'] = 'wellformed'
 
     if kbd and rng.chance(60):
         # the auth-method messages matter in this dialogue
@@ -161,8 +170,9 @@ def gen_plan(rng):
         # server role: a keyboard-interactive attempt that fails comes first
         # (challenge possibly produced asynchronously), then the password
         'kbd': kbd, 'kbd_async': kbd and rng.chance(40),
+        'cdlg': cdlg,
         # inject right after (instead of right before) own message `pos`
-        'after': rng.chance(25),
+        'after': rng.chance(60 if cdlg else 25),
     }
 
 
@@ -174,6 +184,10 @@ def valid_plan(plan):
         for i in plan['inject']:
             if not 1 <= i['t'] <= 100 or i['shape'] not in SHAPES:
                 return False
+
+        if plan.get('cdlg') not in (None, 'pk', 'kbd') or \
+                (plan.get('cdlg') and plan['role'] != 'client'):
+            return False
 
         return True
     except (KeyError, TypeError):
@@ -268,6 +282,21 @@ class PhaseClient(RecClient):
     def auth_completed(self):
         self.out['client_auth_completed'] += 1
 
+    def kbdint_auth_requested(self):
+        if self.out.get('cdlg') != 'kbd':
+            return None
+
+        async def later():
+            # (the application takes a moment to decide)
+            await self.world.sim.app_event('kbd-requested')
+            return ''
+
+        return later()
+
+    def kbdint_challenge_received(self, name, instructions, lang, prompts):
+        self.out['client_kbd_challenges'] += 1
+        return ['no' for _ in prompts]
+
     def auth_banner_received(self, msg, lang):
         self.out['banner'] += 1
 
@@ -290,7 +319,8 @@ def one_run(plan, inject, sched_seed, sched_replay):
            'kbd': plan.get('kbd', False),
            'kbd_async': plan.get('kbd_async', False),
            'kbd_outstanding': False, 'kbd_challenges': 0,
-           'kbd_unsolicited': 0, 'kbd_validated': []}
+           'kbd_unsolicited': 0, 'kbd_validated': [],
+           'cdlg': plan.get('cdlg'), 'client_kbd_challenges': 0}
     owners = []
     rand = seams._urandom
 
@@ -464,10 +494,32 @@ def one_run(plan, inject, sched_seed, sched_replay):
                 peer.saw_50 += 1
                 r = Reader(p, 1)
                 r.string(), r.string()
+                method = r.string()
 
-                if r.string() == b'password':
+                if method == b'password':
                     break
 
+                cdlg = plan.get('cdlg')
+
+                if method == b'publickey' and cdlg == 'pk' and \
+                        not r.boolean():
+                    # a query: the key would be acceptable (the signed
+                    # request that follows is then turned down)
+                    alg, blob = r.string(), r.string()
+                    peer.send(bytes([60]) + string(alg) + string(blob))
+                elif method == b'keyboard-interactive' and cdlg == 'kbd':
+                    peer.send(bytes([60]) + string(b't') + string(b'i') +
+                              string(b'') + u32(1) + string(b'answer?') +
+                              boolean(False))
+                elif method == b'none' and cdlg:
+                    peer.send(bytes([51]) + namelist(
+                        [b'publickey' if cdlg == 'pk' else
+                         b'keyboard-interactive', b'password']) +
+                        boolean(False))
+                else:
+                    peer.send(bytes([51]) + namelist([b'password']) +
+                              boolean(False))
+            elif p[0] == 61 and plan.get('cdlg') == 'kbd':
                 peer.send(bytes([51]) + namelist([b'password']) +
                           boolean(False))
             elif p[0] == 7:
@@ -578,7 +630,9 @@ def one_run(plan, inject, sched_seed, sched_replay):
                     **client_opts(known_hosts=([pubkey('host_ed25519')], [],
                                                []),
                                   username='alice', password='pw-alice',
-                                  login_timeout=60))
+                                  login_timeout=60,
+                                  **(dict(client_keys=[key('user_ed25519')])
+                                     if plan.get('cdlg') == 'pk' else {})))
                 out['connected'] = True
                 sess = CSess()
                 chan, _ = await conn.create_session(lambda: sess,
@@ -739,13 +793,14 @@ def run_plan(plan, sched_seed=None, sched_replay=None):
         elif pre_kex and plan['strict'] and ended:
             sim.probes['strict_fatal'] += 1
 
-    if role == 'client' and out['client_auth_completed']:
+    if role == 'client':
         # by the client's own packet log: when USERAUTH_SUCCESS arrived, had
         # it sent a USERAUTH_REQUEST that no FAILURE had answered yet?  (What
         # the peer had *seen* by then does not matter: a SUCCESS injected
         # right after SERVICE_ACCEPT can cross the client's "none" request on
         # the wire, and accepting it is what RFC 4252 allows.)
         pending = None
+        acted_unasked = False
 
         for label, pkts in sorted(sim.pkts.items()):
             conn_obj = sim.conns.get(label)
@@ -754,17 +809,48 @@ def run_plan(plan, sched_seed=None, sched_replay=None):
                 continue
 
             n = 0
+            asked = 0
+            unasked = False
 
             for d, t, *_rest in pkts:
                 if d == 'S' and t == 50:
                     n += 1
                 elif d == 'R' and t == 51:
                     n = max(0, n - 1)
+                elif d == 'R' and t == 60:
+                    # PK_OK / INFO_REQUEST / PASSWD_CHANGEREQ answer a
+                    # request as well: from here until the client's next
+                    # message nothing of its own is outstanding
+                    if n == 0:
+                        unasked = True
+                    else:
+                        asked += 1
+
+                    n = max(0, n - 1)
+                elif d == 'S' and t == 61:
+                    # (a response still owed to a challenge that was asked
+                    # for is not an answer to the one that was not)
+                    if asked:
+                        asked -= 1
+                    elif unasked:
+                        acted_unasked = True
+
+                    n += 1
                 elif d == 'R' and t == 52:
                     pending = n
                     break
 
-        if pending == 0:
+        if acted_unasked:
+            world.violation(
+                'challenge-without-request',
+                'the client answered (USERAUTH_INFO_RESPONSE) a method-'
+                'specific message that arrived while no request of its own '
+                'was outstanding; the application was prompted %d time(s)' %
+                out['client_kbd_challenges'], sig='kbd')
+
+        if not out['client_auth_completed']:
+            pass
+        elif pending == 0:
             world.violation('success-without-request',
                             'client reported auth_completed although no '
                             'request of its own was outstanding when '
